@@ -180,7 +180,7 @@ def run(ctx, compare=True):
             import collections as _c
 
             cw, cg = _c.Counter(want), _c.Counter(got)
-            if fate in ("undecodable", "overlong"):
+            if fate in ("undecodable", "overlong") and alive:
                 same = not (cg - cw)
             elif not alive:
                 # the model's session ended inside the input (QUIT, 522 ...): lines read before the handler ran
